@@ -186,10 +186,13 @@ Proof.
   apply in_flat_map. exists t. split; [exact Ht|]. apply (atoms_flat_add t). apply in_flat_map. now exists x.
 Qed.
 
-Lemma atoms_mul_arm (Op : expr -> expr) q m v :
-  (forall x, atoms (Op x) = atoms x) -> incl (atoms (mul_arm Op q m v)) (atoms v).
+Lemma atoms_mul_arm (Op : expr -> expr) ev q m v :
+  (forall x, atoms (Op x) = atoms x) -> incl (atoms ev) (atoms v) ->
+  incl (atoms (mul_arm Op ev q m v)) (atoms v).
 Proof.
-  intros H. unfold mul_arm. intros a Ha. apply atoms_scale in Ha. rewrite H in Ha. now apply atoms_scale in Ha.
+  intros H He. unfold mul_arm. destruct (m_pow m).
+  - intros a Ha. apply atoms_scale in Ha. destruct (has_coeffs q m); [now apply He|now rewrite H in Ha].
+  - intros a Ha. apply atoms_scale in Ha. rewrite H in Ha. now apply atoms_scale in Ha.
 Qed.
 Lemma atoms_mul_arm_cst (Op : expr -> expr) q m :
   (forall x, atoms (Op x) = atoms x) -> atoms (mul_arm_cst Op q m) = [].
@@ -218,7 +221,7 @@ Proof.
   - cbn [mk_d]. now apply atoms_map_sadd.
   - cbn [mk_d]. destruct (is_coeff_cst q m); [apply incl_refl|]. destruct (is_mul_cst q m); [|apply incl_refl].
     rewrite atoms_mul_arm_cst; [apply incl_refl|reflexivity].
-  - cbn [mk_d atoms]. apply (atoms_mul_arm D); reflexivity.
+  - cbn [mk_d atoms]. apply (atoms_mul_arm D); [reflexivity|exact IH].
 Qed.
 Lemma atoms_mk_delta e : incl (atoms (mk_delta e)) (atoms e).
 Proof.
@@ -229,7 +232,7 @@ Proof.
   - cbn [mk_delta]. now apply atoms_map_sadd.
   - cbn [mk_delta]. destruct (is_coeff_cst q m); [apply incl_refl|]. destruct (is_mul_cst q m); [|apply incl_refl].
     rewrite atoms_mul_arm_cst; [apply incl_refl|reflexivity].
-  - cbn [mk_delta atoms]. apply (atoms_mul_arm Delta); reflexivity.
+  - cbn [mk_delta atoms]. apply (atoms_mul_arm Delta); [reflexivity|exact IH].
 Qed.
 Lemma atoms_mk_hodge e : incl (atoms (mk_hodge e)) (atoms e).
 Proof.
@@ -239,7 +242,7 @@ Proof.
   - cbn [mk_hodge]. now apply atoms_map_sadd.
   - cbn [mk_hodge]. destruct (is_coeff_cst q m); [apply incl_refl|]. destruct (is_mul_cst q m); [|apply incl_refl].
     rewrite atoms_mul_arm_cst; [apply incl_refl|reflexivity].
-  - cbn [mk_hodge atoms]. apply (atoms_mul_arm Hodge); reflexivity.
+  - cbn [mk_hodge atoms]. apply (atoms_mul_arm Hodge); [reflexivity|exact IH].
 Qed.
 
 Lemma atoms_split_coeff e : incl (atoms (snd (split_coeff e))) (atoms e).
@@ -249,31 +252,37 @@ Proof.
     destruct (m_pow m); apply incl_refl.
   - cbn [split_coeff snd]. apply (atoms_scale _ e).
 Qed.
-Lemma atoms_wedge_core l r : incl (atoms (wedge_core l r)) (atoms l ++ atoms r).
+Lemma atoms_wedge_core rec l r :
+  (forall x y, incl (atoms (rec x y)) (atoms x ++ atoms y)) ->
+  incl (atoms (wedge_core rec l r)) (atoms l ++ atoms r).
 Proof.
-  unfold wedge_core. pose proof (atoms_split_coeff l) as Hl. pose proof (atoms_split_coeff r) as Hr.
+  intros Hrec. unfold wedge_core.
+  pose proof (atoms_split_coeff l) as Hl. pose proof (atoms_split_coeff r) as Hr.
   destruct (split_coeff l) as [a l'], (split_coeff r) as [b r']. cbn [snd] in *.
-  intros x Hx. apply atoms_scale in Hx. cbn [atoms] in Hx. apply in_app_or in Hx. apply in_or_app.
-  destruct Hx as [Hx|Hx]; [left; now apply Hl | right; now apply Hr].
+  assert (K : incl (atoms l' ++ atoms r') (atoms l ++ atoms r)).
+  { intros x Hx. apply in_app_or in Hx. apply in_or_app. destruct Hx as [Hx|Hx]; [left; now apply Hl | right; now apply Hr]. }
+  destruct (extracted l || extracted r)%bool.
+  - intros x Hx. apply atoms_scale in Hx. apply K. now apply Hrec.
+  - exact K.
 Qed.
-Lemma atoms_wedge_r l r : incl (atoms (wedge_r l r)) (atoms l ++ atoms r).
+Lemma atoms_wedge_fuel n : forall l r, incl (atoms (wedge_fuel n l r)) (atoms l ++ atoms r).
 Proof.
-  induction r as [s k n|a IH|a IH|a IH|a1 a2 IH1 IH2|ts IH|q m|q m v IH] using expr_ind';
-    try apply atoms_wedge_core.
-  cbn [wedge_r]. intros x Hx. apply atoms_sadd in Hx. apply in_flat_map in Hx.
-  destruct Hx as [y [Hy Hx]]. apply in_map_iff in Hy. destruct Hy as [t [<- Ht]].
-  rewrite Forall_forall in IH. apply (IH t Ht) in Hx. apply in_app_or in Hx. apply in_or_app.
-  destruct Hx as [Hx|Hx]; [now left|right]. rewrite atoms_Add. apply in_flat_map. now exists t.
+  induction n as [|n IH]; intros l r; [apply incl_refl|].
+  cbn [wedge_fuel]. destruct (eq0 l || eq0 r)%bool; [intros x []|].
+  assert (Hl : forall ls, l = Add ls -> incl (atoms (sadd (map (fun i => wedge_fuel n i r) ls))) (atoms l ++ atoms r)).
+  { intros ls ->. intros x Hx. apply atoms_sadd in Hx. apply in_flat_map in Hx.
+    destruct Hx as [y [Hy Hx]]. apply in_map_iff in Hy. destruct Hy as [t [<- Ht]].
+    apply IH in Hx. apply in_app_or in Hx. apply in_or_app.
+    destruct Hx as [Hx|Hx]; [left|now right]. rewrite atoms_Add. apply in_flat_map. now exists t. }
+  assert (Hr : forall rs, r = Add rs -> incl (atoms (sadd (map (fun i => wedge_fuel n l i) rs))) (atoms l ++ atoms r)).
+  { intros rs ->. intros x Hx. apply atoms_sadd in Hx. apply in_flat_map in Hx.
+    destruct Hx as [y [Hy Hx]]. apply in_map_iff in Hy. destruct Hy as [t [<- Ht]].
+    apply IH in Hx. apply in_app_or in Hx. apply in_or_app.
+    destruct Hx as [Hx|Hx]; [now left|right]. rewrite atoms_Add. apply in_flat_map. now exists t. }
+  destruct l; try (apply (Hl _ eq_refl)); destruct r; try (apply (Hr _ eq_refl)); apply atoms_wedge_core; exact IH.
 Qed.
 Lemma atoms_mk_wedge l r : incl (atoms (mk_wedge l r)) (atoms l ++ atoms r).
-Proof.
-  induction l as [s k n|a IH|a IH|a IH|a1 a2 IH1 IH2|ts IH|q m|q m v IH] using expr_ind';
-    try apply atoms_wedge_r.
-  cbn [mk_wedge]. intros x Hx. apply atoms_sadd in Hx. apply in_flat_map in Hx.
-  destruct Hx as [y [Hy Hx]]. apply in_map_iff in Hy. destruct Hy as [t [<- Ht]].
-  rewrite Forall_forall in IH. apply (IH t Ht) in Hx. apply in_app_or in Hx. apply in_or_app.
-  destruct Hx as [Hx|Hx]; [left|now right]. rewrite atoms_Add. apply in_flat_map. now exists t.
-Qed.
+Proof. apply atoms_wedge_fuel. Qed.
 
 (* ------------------------------------------------------------------ no constant summand *)
 Fixpoint nocst (e : expr) : bool :=
@@ -409,9 +418,12 @@ Proof.
   intros x Hx. apply in_map_iff in Hx. destruct Hx as [t [<- Ht]]. apply (H t Ht). now apply Hn.
 Qed.
 
-Lemma okv_mul_arm (Op : expr -> expr) q m v :
-  (forall x, nocst (Op x) = true) -> okv (mul_arm Op q m v) = true.
-Proof. intros H. unfold mul_arm. apply okv_scale, nocst_okv, H. Qed.
+Lemma okv_mul_arm (Op : expr -> expr) ev q m v :
+  (forall x, nocst (Op x) = true) -> okv ev = true -> okv (mul_arm Op ev q m v) = true.
+Proof.
+  intros H He. unfold mul_arm. destruct (m_pow m); apply okv_scale; [|apply nocst_okv, H].
+  destruct (has_coeffs q m); [exact He|apply nocst_okv, H].
+Qed.
 
 Lemma okv_mk_d e : okv e = true -> okv (mk_d e) = true.
 Proof.
@@ -422,7 +434,7 @@ Proof.
     + cbn [mk_d]. now destruct (Nat.eqb k n).
     + cbn [mk_d]. now apply okv_map_sadd.
     + discriminate.
-    + cbn [mk_d]. now apply okv_mul_arm.
+    + cbn [mk_d]. apply okv_mul_arm; [reflexivity|now apply IH].
 Qed.
 Lemma okv_mk_delta e : okv e = true -> okv (mk_delta e) = true.
 Proof.
@@ -433,7 +445,7 @@ Proof.
     + cbn [mk_delta]. now destruct (Nat.eqb k 0).
     + cbn [mk_delta]. now apply okv_map_sadd.
     + discriminate.
-    + cbn [mk_delta]. now apply okv_mul_arm.
+    + cbn [mk_delta]. apply okv_mul_arm; [reflexivity|now apply IH].
 Qed.
 Lemma okv_mk_hodge e : okv e = true -> okv (mk_hodge e) = true.
 Proof.
@@ -444,27 +456,26 @@ Proof.
     + destruct a; try reflexivity. cbn [mk_hodge]. now apply okv_scale.
     + cbn [mk_hodge]. now apply okv_map_sadd.
     + discriminate.
-    + cbn [mk_hodge]. now apply okv_mul_arm.
+    + cbn [mk_hodge]. apply okv_mul_arm; [reflexivity|now apply IH].
 Qed.
 
-Lemma okv_wedge_core l r : okv (wedge_core l r) = true.
+Lemma okv_wedge_core rec l r : (forall x y, okv (rec x y) = true) -> okv (wedge_core rec l r) = true.
 Proof.
-  unfold wedge_core. destruct (split_coeff l) as [a l'], (split_coeff r) as [b r']. now apply okv_scale.
+  intros H. unfold wedge_core. destruct (split_coeff l) as [a l'], (split_coeff r) as [b r'].
+  destruct (extracted l || extracted r)%bool; [|reflexivity]. apply okv_scale, H.
 Qed.
-Lemma okv_wedge_r l r : okv (wedge_r l r) = true.
+Lemma okv_wedge_fuel n : forall l r, okv (wedge_fuel n l r) = true.
 Proof.
-  induction r as [s k n|a IH|a IH|a IH|a1 a2 IH1 IH2|ts IH|q m|q m v IH] using expr_ind';
-    try apply okv_wedge_core.
-  cbn [wedge_r]. apply okv_sadd. rewrite Forall_forall in *. intros x Hx.
-  apply in_map_iff in Hx. destruct Hx as [t [<- Ht]]. now apply IH.
+  induction n as [|n IH]; intros l r; [reflexivity|].
+  cbn [wedge_fuel]. destruct (eq0 l || eq0 r)%bool; [reflexivity|].
+  assert (Hs : forall (f : expr -> expr) ts, (forall x, okv (f x) = true) -> okv (sadd (map f ts)) = true).
+  { intros f ts Hf. apply okv_sadd. apply Forall_forall. intros x Hx.
+    apply in_map_iff in Hx. destruct Hx as [t [<- _]]. apply Hf. }
+  destruct l; try (apply Hs; intros; apply IH); destruct r; try (apply Hs; intros; apply IH);
+    apply okv_wedge_core; exact IH.
 Qed.
 Lemma okv_mk_wedge l r : okv (mk_wedge l r) = true.
-Proof.
-  induction l as [s k n|a IH|a IH|a IH|a1 a2 IH1 IH2|ts IH|q m|q m v IH] using expr_ind';
-    try apply okv_wedge_r.
-  cbn [mk_wedge]. apply okv_sadd. rewrite Forall_forall in *. intros x Hx.
-  apply in_map_iff in Hx. destruct Hx as [t [<- Ht]]. now apply IH.
-Qed.
+Proof. apply okv_wedge_fuel. Qed.
 
 (* =================================================================== semantics *)
 Section Sound.
@@ -833,10 +844,12 @@ Section Sound.
   (* ---------------------------------------------------------------- the coefficient arm *)
   Lemma mul_arm_sound (Op : expr -> expr) (f : M G -> M G) :
     (forall x, den (Op x) = f (den x)) -> (forall c x, f (c ** x) = c ** f x) ->
-    forall q m v, den (mul_arm Op q m v) = f (den (Mul q m v)).
+    forall ev q m v, den ev = f (den v) -> den (mul_arm Op ev q m v) = f (den (Mul q m v)).
   Proof.
-    intros H1 H2 q m v. unfold mul_arm.
-    rewrite den_scale, H1, den_scale, H2, smul_smul, <- cval_split, den_Mul, H2. reflexivity.
+    intros H1 H2 ev q m v He. unfold mul_arm. destruct (m_pow m) as [|p r] eqn:E.
+    - rewrite den_scale, den_Mul, H2, !cval_eq. cbn [fst snd]. rewrite (mval_pow_nil _ E).
+      destruct (has_coeffs q m); [now rewrite He | now rewrite H1].
+    - rewrite den_scale, H1, den_scale, H2, smul_smul, den_Mul, H2, (cval_split q m), E. reflexivity.
   Qed.
   Lemma mul_arm_cst_sound (Op : expr -> expr) (f : M G -> M G) :
     (forall x, den (Op x) = f (den x)) -> (forall c x, f (c ** x) = c ** f x) ->
@@ -846,7 +859,6 @@ Section Sound.
     rewrite den_scale, H1, !den_Cst, H2, H2, smul_smul. rewrite (cval_split q m), E. reflexivity.
   Qed.
 
-  Definition nonnil {A} (l : list A) : bool := match l with [] => false | _ => true end.
   Lemma nonnil_neq {A} (l : list A) : nonnil l = true -> l <> [].
   Proof. destruct l; [discriminate|congruence]. Qed.
 
@@ -859,6 +871,7 @@ Section Sound.
     | Cst q m => is_coeff_cst q m || negb (is_mul_cst q m) || nonnil (m_pow m)
     | Add ts => (fix all (l : list expr) : bool :=
                    match l with [] => true | t :: r => gd_ok t && all r end) ts
+    | Mul _ _ v => gd_ok v          (* the remaining factor is evaluated again *)
     | _ => true
     end.
   Lemma gd_ok_Add ts : gd_ok (Add ts) = true -> Forall (fun t => gd_ok t = true) ts.
@@ -889,7 +902,7 @@ Section Sound.
       destruct (is_mul_cst q m) eqn:Em; [|reflexivity].
       cbn [gd_ok] in Hg. rewrite Ec, Em in Hg. cbn [negb orb] in Hg.
       apply (mul_arm_cst_sound D (opd G)); [reflexivity | apply (L_d_smul G HL) | now apply nonnil_neq].
-    - cbn [mk_d]. apply (mul_arm_sound D (opd G)); [reflexivity | apply (L_d_smul G HL)].
+    - cbn [mk_d]. apply (mul_arm_sound D (opd G)); [reflexivity | apply (L_d_smul G HL) | now apply IH].
   Qed.
 
   Theorem mk_delta_sound e : wf e -> gd_ok e = true -> den (mk_delta e) = opdelta G (den e).
@@ -909,7 +922,7 @@ Section Sound.
       destruct (is_mul_cst q m) eqn:Em; [|reflexivity].
       cbn [gd_ok] in Hg. rewrite Ec, Em in Hg. cbn [negb orb] in Hg.
       apply (mul_arm_cst_sound Delta (opdelta G)); [reflexivity | apply (L_delta_smul G HL) | now apply nonnil_neq].
-    - cbn [mk_delta]. apply (mul_arm_sound Delta (opdelta G)); [reflexivity | apply (L_delta_smul G HL)].
+    - cbn [mk_delta]. apply (mul_arm_sound Delta (opdelta G)); [reflexivity | apply (L_delta_smul G HL) | now apply IH].
   Qed.
 
   (* ---------------------------------------------------------------- hodge *)
@@ -920,6 +933,7 @@ Section Sound.
                  else negb (is_mul_cst q m) || nonnil (m_pow m)
     | Add ts => (fix all (l : list expr) : bool :=
                    match l with [] => true | t :: r => gh_ok t && all r end) ts
+    | Mul _ _ v => gh_ok v
     | _ => true
     end.
   Lemma gh_ok_Add ts : gh_ok (Add ts) = true -> Forall (fun t => gh_ok t = true) ts.
@@ -946,7 +960,7 @@ Section Sound.
         replace (0r *r mval G cenv m) with 0r by ring. now rewrite smul_0_l, hodge_0. }
       destruct (is_mul_cst q m) eqn:Em; [|reflexivity]. cbn [negb orb] in Hg.
       apply (mul_arm_cst_sound Hodge (ophodge G)); [reflexivity | apply (L_hodge_smul G HL) | now apply nonnil_neq].
-    - cbn [mk_hodge]. apply (mul_arm_sound Hodge (ophodge G)); [reflexivity | apply (L_hodge_smul G HL)].
+    - cbn [mk_hodge]. apply (mul_arm_sound Hodge (ophodge G)); [reflexivity | apply (L_hodge_smul G HL) | now apply IH].
   Qed.
 
   (* ---------------------------------------------------------------- wedge: every arm is sound *)
@@ -962,36 +976,63 @@ Section Sound.
     - cbn [split_coeff fst snd]. rewrite den_scale, smul_smul, <- cval_split. reflexivity.
   Qed.
 
-  Lemma wedge_core_sound l r : den (wedge_core l r) = opwedge G (den l) (den r).
+  Lemma eq0_den e : eq0 e = true -> den e = 0m.
   Proof.
-    unfold wedge_core.
-    pose proof (split_coeff_sound l) as Hl. pose proof (split_coeff_sound r) as Hr.
-    destruct (split_coeff l) as [a l'], (split_coeff r) as [b r']. cbn [fst snd] in Hl, Hr.
-    rewrite Hl, Hr, den_scale, cval_cmul. cbn [denote].
-    rewrite (L_wedge_smul_l G HL), (L_wedge_smul_r G HL), smul_smul. reflexivity.
+    destruct e; try discriminate. cbn [eq0]. intros H.
+    rewrite den_Cst, cval_eq, (ofQ_zero _ H). replace (0r *r mval G cenv m) with 0r by ring. apply smul_0_l.
   Qed.
 
-  Lemma wedge_r_0 x : opwedge G x 0m = 0m.
-  Proof. apply wedge_0_r. Qed.
-
-  Theorem wedge_r_sound l r : den (wedge_r l r) = opwedge G (den l) (den r).
+  (* nothing pulled out: the coefficient part returned by split_coeff is 1 *)
+  Lemma not_extracted_cval e : extracted e = false -> cv (fst (split_coeff e)) = 1r.
   Proof.
-    induction r as [s k n|a IH|a IH|a IH|a1 a2 IH1 IH2|ts IH|q m|q m v IH] using expr_ind';
-      try apply wedge_core_sound.
-    cbn [wedge_r]. rewrite sadd_sound, map_map, den_Add.
-    rewrite <- (msum_lin (opwedge G (den l)) (L_wedge_add_r G HL (den l)) (wedge_0_r (den l))), map_map.
-    apply msum_map_ext. exact IH.
+    assert (K : forall q m, has_coeffs q m = false -> cv (q, m_lin m) = 1r).
+    { intros q m H. unfold has_coeffs in H. apply orb_false_iff in H. destruct H as [H1 H2].
+      apply negb_false_iff in H1. destruct (m_lin m); [|discriminate].
+      now rewrite cval_num, (ofQ_one _ H1). }
+    destruct e; intros H; try apply cval_one.
+    - cbn [split_coeff]. cbn [extracted] in H. destruct (is_mul_cst q m); [|apply cval_one].
+      cbn [fst]. apply K. exact H.
+    - cbn [split_coeff fst]. apply K. exact H.
+  Qed.
+
+  Lemma wedge_core_sound rec l r :
+    (forall x y, den (rec x y) = opwedge G (den x) (den y)) ->
+    den (wedge_core rec l r) = opwedge G (den l) (den r).
+  Proof.
+    intros Hrec. unfold wedge_core.
+    pose proof (split_coeff_sound l) as Hl. pose proof (split_coeff_sound r) as Hr.
+    pose proof (not_extracted_cval l) as Nl. pose proof (not_extracted_cval r) as Nr.
+    destruct (split_coeff l) as [a l'], (split_coeff r) as [b r']. cbn [fst snd] in Hl, Hr, Nl, Nr.
+    rewrite Hl, Hr, (L_wedge_smul_l G HL), (L_wedge_smul_r G HL), smul_smul.
+    destruct (extracted l || extracted r)%bool eqn:E.
+    - rewrite den_scale, Hrec, cval_cmul. reflexivity.
+    - apply orb_false_iff in E. destruct E as [E1 E2]. rewrite (Nl E1), (Nr E2).
+      replace (1r *r 1r) with 1r by ring. now rewrite (L_smul_1 G HL).
+  Qed.
+
+  Theorem wedge_fuel_sound n : forall l r, den (wedge_fuel n l r) = opwedge G (den l) (den r).
+  Proof.
+    induction n as [|n IH]; intros l r; [reflexivity|].
+    cbn [wedge_fuel]. destruct (eq0 l || eq0 r)%bool eqn:Ez.
+    { rewrite den_zero. apply orb_true_iff in Ez. destruct Ez as [Ez|Ez]; rewrite (eq0_den _ Ez);
+        [now rewrite wedge_0_l | now rewrite wedge_0_r]. }
+    assert (Hl : forall ls, l = Add ls ->
+               den (sadd (map (fun i => wedge_fuel n i r) ls)) = opwedge G (den l) (den r)).
+    { intros ls ->. rewrite sadd_sound, map_map, den_Add.
+      rewrite <- (msum_lin (fun x => opwedge G x (den r)) (fun x y => L_wedge_add_l G HL x y (den r))
+                    (wedge_0_l (den r))), map_map.
+      apply msum_map_ext. apply Forall_forall. intros t _. apply IH. }
+    assert (Hr : forall rs, r = Add rs ->
+               den (sadd (map (fun i => wedge_fuel n l i) rs)) = opwedge G (den l) (den r)).
+    { intros rs ->. rewrite sadd_sound, map_map, den_Add.
+      rewrite <- (msum_lin (opwedge G (den l)) (L_wedge_add_r G HL (den l)) (wedge_0_r (den l))), map_map.
+      apply msum_map_ext. apply Forall_forall. intros t _. apply IH. }
+    destruct l; try (apply (Hl _ eq_refl)); destruct r; try (apply (Hr _ eq_refl));
+      apply wedge_core_sound; exact IH.
   Qed.
 
   Theorem mk_wedge_sound l r : den (mk_wedge l r) = opwedge G (den l) (den r).
-  Proof.
-    induction l as [s k n|a IH|a IH|a IH|a1 a2 IH1 IH2|ts IH|q m|q m v IH] using expr_ind';
-      try apply wedge_r_sound.
-    cbn [mk_wedge]. rewrite sadd_sound, map_map, den_Add.
-    rewrite <- (msum_lin (fun x => opwedge G x (den r)) (fun x y => L_wedge_add_l G HL x y (den r))
-                  (wedge_0_l (den r))), map_map.
-    apply msum_map_ext. exact IH.
-  Qed.
+  Proof. apply wedge_fuel_sound. Qed.
 
   (* ---------------------------------------------------------------- programs *)
   Lemma okv_gd e : okv e = true -> gd_ok e = true.
@@ -1003,6 +1044,7 @@ Section Sound.
       rewrite nocst_Add in Hn. induction IH as [|t r Ht Hr IHr]; [reflexivity|].
       cbn [forallb] in Hn. apply andb_true_iff in Hn. destruct Hn as [H1 H2].
       cbn [gd_ok] in *. rewrite (Ht H1). now apply IHr.
+      cbn [gd_ok]. now apply IH.
   Qed.
   Lemma okv_gh e : okv e = true -> gh_ok e = true.
   Proof.
@@ -1013,6 +1055,7 @@ Section Sound.
       rewrite nocst_Add in Hn. induction IH as [|t r Ht Hr IHr]; [reflexivity|].
       cbn [forallb] in Hn. apply andb_true_iff in Hn. destruct Hn as [H1 H2].
       cbn [gh_ok] in *. rewrite (Ht H1). now apply IHr.
+      cbn [gh_ok]. now apply IH.
   Qed.
 
   Notation wt := (wft G fenv).
@@ -1253,7 +1296,8 @@ Section Sound.
       apply wf_Add in Hw. rewrite Forall_forall in *. intros x Hx. apply in_map_iff in Hx.
       destruct Hx as [t [<- Ht]]. apply IH; auto. apply H. apply in_map_iff. now exists t.
     - discriminate.
-    - discriminate.
+    - cbn [infer] in H. destruct (m_pow m); [|discriminate].
+      rewrite den_Mul. apply (L_deg_smul G HL). now apply IH.
   Qed.
 
   Theorem law_d_top t : prog t -> infer (eval t) = IOk (dim G) -> ev (TD t) = 0m.
@@ -1362,9 +1406,12 @@ Theorem infer_Hodge_beyond a k n : infer a = IOk k -> first_dim a = Some n -> (n
   infer (Hodge a) = IErrValue.
 Proof. intros H Hn Hk. cbn [infer]. rewrite H, Hn. cbn [is_ierr]. apply gif_out. lia. Qed.
 
-(* products have no arm: infere_type(2*u) is None *)
-Theorem infer_Mul_none q m v : infer (Mul q m v) = INone.
-Proof. reflexivity. Qed.
+(* a constant multiple has the degree of its single non-coefficient factor (since c3f9f51);
+   with a Pow of a Constant among the factors there are two "vectors" and the result is None *)
+Theorem infer_Mul q m v : m_pow m = [] -> infer (Mul q m v) = infer v.
+Proof. intros H. cbn [infer]. now rewrite H. Qed.
+Theorem infer_Mul_pow_none q m v : m_pow m <> [] -> infer (Mul q m v) = INone.
+Proof. intros H. cbn [infer]. destruct (m_pow m); [congruence|reflexivity]. Qed.
 
 (* sums *)
 Theorem infer_sum_same ts k : ts <> [] -> Forall (fun t => infer t = IOk k) ts -> infer (Add ts) = IOk k.
@@ -1441,14 +1488,91 @@ Theorem deltadelta_sum_of_delta ts : mk_delta (Add (map Delta ts)) = zero.
 Proof. cbn [mk_delta]. rewrite map_map. cbn [mk_delta]. apply sadd_zeros. Qed.
 
 Open Scope string_scope.
-(* ... but not below an extracted coefficient: the Mul arm wraps the rest with evaluate=False *)
+(* ---- the coefficient arm evaluates the remaining factor again (93cc443): for ALL q, m, v *)
+Lemma scale_zero c : scale c zero = zero.
+Proof.
+  destruct c as [q m]. unfold scale, zero, mkcst.
+  rewrite (is_zero_mul_r q 0); reflexivity.
+Qed.
+Theorem mk_d_coeff q m v : m_pow m = [] -> has_coeffs q m = true ->
+  mk_d (Mul q m v) = scale (q, m_lin m) (mk_d v).
+Proof. intros Hp Hc. cbn [mk_d]. unfold mul_arm. now rewrite Hp, Hc. Qed.
+Theorem mk_delta_coeff q m v : m_pow m = [] -> has_coeffs q m = true ->
+  mk_delta (Mul q m v) = scale (q, m_lin m) (mk_delta v).
+Proof. intros Hp Hc. cbn [mk_delta]. unfold mul_arm. now rewrite Hp, Hc. Qed.
+Theorem mk_hodge_coeff q m v : m_pow m = [] -> has_coeffs q m = true ->
+  mk_hodge (Mul q m v) = scale (q, m_lin m) (mk_hodge v).
+Proof.
+  intros Hp Hc. destruct v; cbn [mk_hodge]; unfold mul_arm; rewrite Hp, Hc; reflexivity.
+Qed.
+(* hence the short-cuts act below a coefficient *)
+Theorem dd_coeff q m x : m_pow m = [] -> has_coeffs q m = true -> mk_d (Mul q m (D x)) = zero.
+Proof. intros Hp Hc. rewrite mk_d_coeff by assumption. apply scale_zero. Qed.
+Theorem deltadelta_coeff q m x : m_pow m = [] -> has_coeffs q m = true -> mk_delta (Mul q m (Delta x)) = zero.
+Proof. intros Hp Hc. rewrite mk_delta_coeff by assumption. apply scale_zero. Qed.
+Theorem d_top_coeff q m s n : m_pow m = [] -> has_coeffs q m = true -> mk_d (Mul q m (Form s n n)) = zero.
+Proof. intros Hp Hc. rewrite mk_d_coeff by assumption. rewrite d_top_atom. apply scale_zero. Qed.
+Theorem delta_bot_coeff q m s n : m_pow m = [] -> has_coeffs q m = true -> mk_delta (Mul q m (Form s 0 n)) = zero.
+Proof. intros Hp Hc. rewrite mk_delta_coeff by assumption. apply scale_zero. Qed.
+Theorem hodge_hodge_coeff q m s k n : m_pow m = [] -> has_coeffs q m = true ->
+  mk_hodge (Mul q m (Hodge (Form s k n))) = scale (q, m_lin m) (mk_hodge (mk_hodge (Form s k n))).
+Proof. intros Hp Hc. now rewrite mk_hodge_coeff by assumption. Qed.
+
+(* the wedge product with a zero operand is 0 (757e1d0), for all operands *)
+Lemma wedge_fuel_zero n l r : (eq0 l || eq0 r)%bool = true -> wedge_fuel (S n) l r = zero.
+Proof. intros H. cbn [wedge_fuel]. now rewrite H. Qed.
+Theorem wedge_zero_l l r : eq0 l = true -> mk_wedge l r = zero.
+Proof.
+  intros H. unfold mk_wedge.
+  replace (2 * (esize l + esize r) + 4)%nat with (S (2 * (esize l + esize r) + 3)) by lia.
+  apply wedge_fuel_zero. now rewrite H.
+Qed.
+Theorem wedge_zero_r l r : eq0 r = true -> mk_wedge l r = zero.
+Proof.
+  intros H. unfold mk_wedge.
+  replace (2 * (esize l + esize r) + 4)%nat with (S (2 * (esize l + esize r) + 3)) by lia.
+  apply wedge_fuel_zero. rewrite H. apply orb_true_r.
+Qed.
+
+(* the inputs that failed before the repairs (kept as regression statements) *)
+Theorem after_fix_dd : eval (TD (TD (TScale (CNum 2) (TForm "u" 0 3)))) = zero.
+Proof. reflexivity. Qed.
+Theorem after_fix_d_top : eval (TD (TScale (CNum 3) (TForm "v" 3 3))) = zero.
+Proof. reflexivity. Qed.
+Theorem after_fix_hodge_hodge :
+  eval (THodge (THodge (TScale (CNum 2) (TForm "u" 1 3)))) = Mul 2 [] (Form "u" 1 3).
+Proof. reflexivity. Qed.
+Theorem after_fix_lin_d :
+  let t1 := TSum [TForm "u" 0 3; TForm "v" 0 3] in let t2 := TForm "w" 0 3 in let c := CSym "a" in
+  eqv true (eval (TD (tcomb c t1 t2))) (sadd [scale (coef_c c) (eval (TD t1)); eval (TD t2)]) = true.
+Proof. reflexivity. Qed.
+Theorem after_fix_wedge_zero :
+  eval (TWedge (TD (TD (TForm "u" 0 3))) (TForm "v" 1 3)) = zero /\
+  eval (TSum [TWedge (TForm "u" 0 3) (TForm "v" 1 3); TWedge (TD (TD (TForm "u" 0 3))) (TForm "v" 1 3)])
+    = Wedge (Form "u" 0 3) (Form "v" 1 3).
+Proof. split; reflexivity. Qed.
+Theorem after_fix_infer :
+  infer (Mul 2 [] (Form "u" 1 3)) = IOk 1 /\
+  infer (Add [Form "u" 1 3; Mul 2 [] (Form "v" 1 3)]) = IOk 1.
+Proof. split; reflexivity. Qed.
+
+(* ---- what is still not delivered syntactically *)
+(* a Pow of a Constant is not a coefficient: a*(a*u1 + d(y0)) -> d gives a**2*d(u1), and d of that is kept *)
+Definition pow_prog : tree :=
+  TScale (CSym "a") (TSum [TScale (CSym "a") (TForm "u" 1 3); TD (TForm "y" 0 3)]).
 Theorem dd_syntactic_refuted :
-  exists t, const_free t = true /\ eval (TD (TD t)) <> zero /\
-            eval (TD (TD t)) = Mul 2 [] (D (D (Form "u" 0 3))).
-Proof. exists (TScale (CNum 2) (TForm "u" 0 3)). split; [reflexivity|]. split; [discriminate|reflexivity]. Qed.
+  const_free pow_prog = true /\ tdeg 3 pow_prog = Some 1%nat /\
+  eval (TD pow_prog) = Mul 1 [("a", 2%nat)] (D (Form "u" 1 3)) /\
+  eval (TD (TD pow_prog)) = D (Mul 1 [("a", 2%nat)] (D (Form "u" 1 3))) /\
+  eval (TD (TD pow_prog)) <> zero.
+Proof. repeat split; try reflexivity. discriminate. Qed.
 Theorem deltadelta_syntactic_refuted :
-  exists t, const_free t = true /\ eval (TDelta (TDelta t)) <> zero.
-Proof. exists (TScale (CNum 2) (TForm "u" 2 3)). split; [reflexivity|discriminate]. Qed.
+  exists t, const_free t = true /\ tdeg 3 t = Some 2%nat /\ eval (TDelta (TDelta t)) <> zero.
+Proof.
+  exists (TScale (CSym "a") (TSum [TScale (CSym "a") (TForm "u" 2 3); TDelta (TForm "y" 3 3)])).
+  repeat split; try reflexivity. discriminate.
+Qed.
+(* the degree short-cuts look at atoms only *)
 Theorem d_top_syntactic_refuted :
   exists t, const_free t = true /\ infer (eval t) = IOk 3 /\ first_dim (eval t) = Some 3%nat /\ eval (TD t) <> zero.
 Proof. exists (THodge (TForm "u" 0 3)). repeat split; discriminate. Qed.
@@ -1460,19 +1584,32 @@ Theorem hodge_hodge_syntactic_refuted :
             eval (THodge (THodge t)) = Hodge (Hodge (D (Form "u" 1 3))) /\
             eqv true (eval (THodge (THodge t))) (scale (sign_q (2 * (3 - 2)), []) (eval t)) = false.
 Proof. exists (TD (TForm "u" 1 3)). repeat split; reflexivity. Qed.
-(* linearity: the numeric factor of 2*(u+v) is not distributed (DifferentialForm.is_commutative is None),
-   and d does not look below it *)
+(* linearity over the constant a fails syntactically when the operand already carries a:
+   d(a*(a*u) + w) = d(a**2*u) + d(w)  against  a**2*d(u) + d(w) *)
 Theorem lin_d_syntactic_refuted :
   exists c t1 t2, const_free t1 = true /\ const_free t2 = true /\
     eqv true (eval (TD (tcomb c t1 t2)))
              (sadd [scale (coef_c c) (eval (TD t1)); eval (TD t2)]) = false.
 Proof.
-  exists (CSym "a"), (TSum [TForm "u" 0 3; TForm "v" 0 3]), (TForm "w" 0 3).
+  exists (CSym "a"), (TScale (CSym "a") (TForm "u" 0 3)), (TForm "w" 0 3).
   repeat split; reflexivity.
 Qed.
-(* infere_type: same-degree sums with a coefficient are refused *)
+(* since 1a620f5 the wedge evaluates the remaining factors again whenever a coefficient was
+   pulled out, also when the two coefficients cancel: for all operands *)
+Theorem wedge_core_extracted rec l r : (extracted l || extracted r)%bool = true ->
+  wedge_core rec l r =
+  scale (cmul (fst (split_coeff l)) (fst (split_coeff r))) (rec (snd (split_coeff l)) (snd (split_coeff r))).
+Proof.
+  intros H. unfold wedge_core. destruct (split_coeff l) as [a l'], (split_coeff r) as [b r'].
+  cbn [fst snd]. now rewrite H.
+Qed.
+Theorem after_fix_wedge_cancel :
+  let t := TWedge (TScale (CNum (1 # 2)) (TSum [TForm "u" 0 3; TForm "w" 0 3])) (TScale (CNum 2) (TForm "v" 1 3)) in
+  eqv true (eval t) (sadd [Wedge (Form "u" 0 3) (Form "v" 1 3); Wedge (Form "w" 0 3) (Form "v" 1 3)]) = true.
+Proof. reflexivity. Qed.
+(* infere_type: a multiple by a**2 is still untyped, and such a same-degree sum is refused *)
 Theorem infer_sum_same_refuted :
-  let e := Add [Form "u" 1 3; Mul 2 [] (Form "v" 1 3)] in
+  let e := Add [Form "u" 1 3; Mul 1 [("a", 2%nat)] (Form "v" 1 3)] in
   infer e = IErrValue /\
   forall G (HL : laws G) cenv fenv, wfe G fenv e -> deg G (denote G cenv fenv e) 1.
 Proof.
